@@ -22,7 +22,8 @@ RULE = (
     "custom pragmas), on a copy of the file, with a sqlite statement trace on the connection (only SELECT/PRAGMA allowed; no call may "
     "raise other than FeatureNotFoundError), then a canonical comparison of all tables of the closed file and of directives, dialect "
     "and counters of a reopened FeatureDB; byte identity is recorded as an outcome. Non-trivial = every execution (each has an existing "
-    "database that must survive). force is only named when True (the statement's 'unless force=True': the default refuses)."
+    "database that must survive). force=True is named when forcing; a refusal is asked for by force=False (path input), by omitting the "
+    "argument (string input) or, for Feature-list input (plain variant), by passing id_spec as third positional argument and no force."
 )
 ASSUMPTIONS = [
     "the statement trace sees every statement the connection executes (sqlite3.Connection.set_trace_callback)",
